@@ -5,7 +5,8 @@ import S3V.Thm.PolicyGrammar
 * every value the reader produces satisfies the `IndexMap` invariant and never contains `One("*")`,
   so it is in the domain of the round-trip theorem (`fromJson?_wf`);
 * necessary conditions for acceptance that hold with no assumption about the rest of the document
-  (`accepted_shapes`): they give the refusal of the property's stated shapes outright.
+  (`fromJson?_must`): they give the refusal of the property's stated shapes outright;
+* the encoder meets the value-side "one versus many" shape specification (`valueShape_toJson`).
 -/
 namespace S3V.Policy
 open S3V S3V.PolicySpec
@@ -234,5 +235,183 @@ theorem fromJson?_wf (j : Json) (p : Policy) (h : fromJson? j = some p) : p.maps
       subst hp
       exact key c st hst
   | _ => simp [fromJson?] at h
+
+
+/-! ## necessary conditions for acceptance -/
+
+theorem slot_all {α : Type} (f : Json → Option α) (vs : List Json) (r : Option α) (h : slot f none vs = some r) :
+    ∀ v ∈ vs, ∃ x, f v = some x := by
+  rcases (slot_none_some_iff f vs r).mp h with ⟨rfl, _⟩ | ⟨v, x, rfl, hx, _⟩
+  · simp
+  · intro w hw; simp at hw; subst hw; exact ⟨x, hx⟩
+
+theorem slot_len {α : Type} (f : Json → Option α) (vs : List Json) (r : Option α) (h : slot f none vs = some r) :
+    vs.length ≤ 1 := by
+  rcases (slot_none_some_iff f vs r).mp h with ⟨rfl, _⟩ | ⟨v, x, rfl, _, _⟩ <;> simp
+
+theorem effect_must (v : Json) (e : Effect) (h : unitEnum effectOfName v = some e) :
+    ((effectValueViol v).isNone || enumObjectForm v) = true := by
+  cases hq : enumObjectForm v with
+  | true => simp
+  | false => simp [grammar_of_effect v e h hq]
+
+theorem version_must (v : Json) (x : Option Version) (h : optVersion v = some x) :
+    ((versionValueViol v).isNone || enumObjectForm v) = true := by
+  cases hq : enumObjectForm v with
+  | true => simp
+  | false => simp [grammar_of_optVersion v x h hq]
+
+theorem rule_must {ρ : Type} (a b : Bytes) (mk : Bytes → WildcardOneOrMore Bytes → ρ) (ms : List (Bytes × Json))
+    (ha : a ≠ kSid ∧ a ≠ kEffect ∧ a ≠ kCondition) (hb : b ≠ kSid ∧ b ≠ kEffect ∧ b ≠ kCondition) (r : ρ)
+    (h : (match takeVariant a b (others ms) with
+          | none => none
+          | some (k, v) => (woomOfJson v).map fun w => mk k w) = some r) :
+    (match (membersOf2 a b ms).head? with
+      | some kv => strOrStrs kv.2
+      | none => false) = true := by
+  rw [takeVariant_others a b ha hb] at h
+  cases hh : (membersOf2 a b ms).head? with
+  | none => simp [hh] at h
+  | some kv =>
+    rw [hh] at h
+    cases hw : woomOfJson kv.2 with
+    | none => simp [hw] at h
+    | some w => exact (woomOfJson_some_iff kv.2).mp ⟨w, hw⟩
+
+theorem statementOfMembers_must (ms : List (Bytes × Json)) (s : Statement) (h : statementOfMembers ms = some s) :
+    stmtMust (.obj ms) = true := by
+  rw [statementOfMembers_eq] at h
+  simp only [Option.bind_eq_some_iff] at h
+  obtain ⟨sid, hsid, ef, hef, co, hco, effect, heffect, action, hact, resource, hres, _⟩ := h
+  subst heffect
+  rw [actionRuleOf_eq] at hact
+  rw [resourceRuleOf_eq] at hres
+  simp only [stmtMust, Bool.and_eq_true, List.all_eq_true, decide_eq_true_eq]
+  refine ⟨⟨⟨⟨⟨⟨⟨⟨slot_len _ _ _ hsid, slot_len _ _ _ hef⟩, slot_len _ _ _ hco⟩, ?_⟩, ?_⟩, ?_⟩, ?_⟩, ?_⟩, ?_⟩
+  · intro v hv
+    obtain ⟨x, hx⟩ := slot_all _ _ _ hsid v hv
+    simp [(optString_some_iff .sidShape v).mp ⟨x, hx⟩]
+  · rcases (slot_none_some_iff _ _ _).mp hef with ⟨_, hh⟩ | ⟨v, x, hm, _, _⟩
+    · cases hh
+    · simp [hm]
+  · intro v hv
+    obtain ⟨x, hx⟩ := slot_all _ _ _ hef v hv
+    exact effect_must v x hx
+  · exact rule_must kAction kNotAction _ ms (by decide) (by decide) action hact
+  · exact rule_must kResource kNotResource _ ms (by decide) (by decide) resource hres
+  · intro v hv
+    obtain ⟨x, hx⟩ := slot_all _ _ _ hco v hv
+    simp [(optCondition_some_iff v).mp ⟨x, hx⟩]
+
+theorem statementOfJson_must (x : Json) (s : Statement) (h : statementOfJson x = some s) : stmtMust x = true := by
+  cases x with
+  | obj ms => exact statementOfMembers_must ms s h
+  | _ => simp [statementOfJson] at h
+
+theorem mapM_statement_must (items : List Json) : ∀ ss, items.mapM statementOfJson = some ss →
+    ∀ x ∈ items, stmtMust x = true := by
+  induction items with
+  | nil => intro _ _ x hx; simp at hx
+  | cons y ys ih =>
+    intro ss h x hx
+    simp only [List.mapM_cons, Option.bind_eq_bind, Option.bind_eq_some_iff] at h
+    obtain ⟨s0, hs0, ss', hss', _⟩ := h
+    simp only [List.mem_cons] at hx
+    rcases hx with rfl | hx
+    · exact statementOfJson_must _ s0 hs0
+    · exact ih ss' hss' x hx
+
+theorem statementsOfJson_must (v : Json) (st : OneOrMore Statement) (h : statementsOfJson v = some st) :
+    ∀ x ∈ stmtItems v, stmtMust x = true := by
+  cases v with
+  | obj ms =>
+    simp only [statementsOfJson, Option.map_eq_some_iff] at h
+    obtain ⟨s, hs, _⟩ := h
+    intro x hx
+    simp only [stmtItems, List.mem_singleton] at hx
+    subst hx
+    exact statementOfMembers_must ms s hs
+  | arr items =>
+    simp only [statementsOfJson, Option.map_eq_some_iff] at h
+    obtain ⟨ss, hss, _⟩ := h
+    exact mapM_statement_must items ss hss
+  | _ => simp [statementsOfJson] at h
+
+theorem fromJson?_must (j : Json) (p : Policy) (h : fromJson? j = some p) :
+    headMust j = true ∧ ∀ x ∈ statementNodes j, stmtMust x = true := by
+  cases j with
+  | obj ms =>
+    simp only [fromJson?] at h
+    rw [policyOfMembers_eq] at h
+    simp only [Option.bind_eq_some_iff] at h
+    obtain ⟨v, hv, i, hi, s, hs, st, hst, _⟩ := h
+    subst hst
+    rcases (slot_none_some_iff _ _ _).mp hs with ⟨_, hh⟩ | ⟨w, x, hm, hx, _⟩
+    · cases hh
+    · refine ⟨?_, ?_⟩
+      · simp only [headMust, Bool.and_eq_true, List.all_eq_true, decide_eq_true_eq]
+        refine ⟨⟨⟨⟨⟨slot_len _ _ _ hv, slot_len _ _ _ hi⟩, slot_len _ _ _ hs⟩, ?_⟩, ?_⟩, by simp [hm]⟩
+        · intro u hu
+          obtain ⟨y, hy⟩ := slot_all _ _ _ hv u hu
+          exact version_must u y hy
+        · intro u hu
+          obtain ⟨y, hy⟩ := slot_all _ _ _ hi u hu
+          simp [(optString_some_iff .idShape u).mp ⟨y, hy⟩]
+      · simp only [statementNodes, hm, List.flatMap_cons, List.flatMap_nil, List.append_nil]
+        exact statementsOfJson_must w x hx
+  | arr items =>
+    simp only [fromJson?] at h
+    match items, h with
+    | [a, b, c], h =>
+      simp only [policyOfSeq, Option.bind_eq_some_iff] at h
+      obtain ⟨v, _, i, _, st, hst, _⟩ := h
+      exact ⟨rfl, statementsOfJson_must c st hst⟩
+  | _ => simp [fromJson?] at h
+
+/-! ## the encoder against the value-side shape specification -/
+
+theorem oomShape_oomJson (o : OneOrMore Bytes) : oomShape o (oomJson o) = true := by
+  cases o <;> simp [oomShape, oomJson]
+
+theorem woomShape_woomJson (w : WildcardOneOrMore Bytes) : woomShape w (woomJson w) = true := by
+  cases w <;> simp [woomShape, woomJson]
+
+theorem zip_map_all {α β : Type} (f : α → β) (P : α × β → Bool) (l : List α) (h : ∀ a ∈ l, P (a, f a) = true) :
+    (l.zip (l.map f)).all P = true := by
+  induction l with
+  | nil => rfl
+  | cons a l ih =>
+    simp only [List.map_cons, List.zip_cons_cons, List.all_cons, Bool.and_eq_true]
+    exact ⟨h a (by simp), ih fun b hb => h b (List.mem_cons_of_mem _ hb)⟩
+
+theorem kvsShape_kvsJson (m : IMap (OneOrMore Bytes)) : kvsShape m (kvsJson m) = true := by
+  simp only [kvsShape, kvsJson, List.length_map, beq_self_eq_true, Bool.true_and]
+  exact zip_map_all _ _ m fun e _ => oomShape_oomJson e.2
+
+theorem condShape_written (co : Option ConditionRule) : condShape co (optConditionJson co) = true := by
+  cases co with
+  | none => rfl
+  | some c =>
+    simp only [condShape, optConditionJson, conditionJson, List.length_map, beq_self_eq_true, Bool.true_and]
+    exact zip_map_all _ _ c fun e _ => kvsShape_kvsJson e.2
+
+theorem stmtShape_statementJson (s : Statement) : stmtShape s (statementJson s) = true := by
+  obtain ⟨sid, pr, ef, ac, re, co⟩ := s
+  have hc := condShape_written co
+  rcases pr with _ | ⟨(_ | m) | (_ | m)⟩ <;> cases ac <;> cases re <;>
+    simp [stmtShape, statementJson, principalMembers, actionMember, resourceMember, pick, valuesOf,
+      woomShape_woomJson, kSid, kEffect, kCondition, kPrincipal, kNotPrincipal, kAction, kNotAction, kResource,
+      kNotResource, hc, principalJson, kvsShape_kvsJson]
+
+/-- the model's encoder writes `One` as a bare value and `More` as a list, everywhere -/
+theorem valueShape_toJson (p : Policy) : valueShape p (toJson p) = true := by
+  obtain ⟨v, i, st⟩ := p
+  cases st with
+  | one s =>
+    have := stmtShape_statementJson s
+    simpa [valueShape, toJson, pick, valuesOf, kVersion, kId, kStatement, statementsJson] using this
+  | more ss =>
+    have := zip_map_all statementJson (fun sj => stmtShape sj.1 sj.2) ss fun s _ => stmtShape_statementJson s
+    simpa [valueShape, toJson, pick, valuesOf, kVersion, kId, kStatement, statementsJson] using this
 
 end S3V.Policy
